@@ -1247,9 +1247,11 @@ fn execute_match(
                     converted_base,
                 },
         } => {
+            // the base delivered to the bidder is the contract's base denom, not the
+            // ask's convertible denom: look up its own marker type
             response = add_transfer(
                 response,
-                is_base_restricted_marker.to_owned(),
+                is_restricted_marker(&deps.querier, converted_base.denom.clone()),
                 execute_size.into(),
                 converted_base.to_owned().denom,
                 bid_order.owner.to_owned(),
